@@ -18,6 +18,9 @@ type Case struct {
 	Doc   string `json:"doc"`
 	Patch string `json:"patch"`
 	Neg   bool   `json:"support_negative_indices"`
+	// options that both sides of the comparison carry alike
+	NoEsc  bool `json:"escape_html_off,omitempty"`
+	Ensure bool `json:"ensure_path_exists_on_add,omitempty"`
 }
 
 func draw(t *rapid.T) Case {
@@ -34,7 +37,8 @@ func draw(t *rapid.T) Case {
 	if neg {
 		rm.MissKinds = []int{0, 1, 3, 4, 5, 6, 9}
 	}
-	ro := ref.Opts{Neg: neg, AllowMissing: true}
+	ensure := gen.OneIn(t, 5, "ensure")
+	ro := ref.Opts{Neg: neg, AllowMissing: true, Ensure: ensure}
 	n := gen.Uniform(t, 1, 7, "nops")
 	st := &ref.State{Root: doc.Clone()}
 	var ops []ref.Op
@@ -44,6 +48,10 @@ func draw(t *rapid.T) Case {
 			op = rm.Next(t, st.Root, i)
 		} else {
 			op = g.Next(t, st.Root, i)
+			if ensure && op.Op == "add" && rapid.Bool().Draw(t, "deeper") {
+				// an add below a member that does not exist yet (created under the option), which a later remove may address
+				op.Path += "/" + rapid.SampledFrom(gen.Default.Keys).Draw(t, "dk")
+			}
 		}
 		ops = append(ops, op)
 		trial := &ref.State{Root: st.Root.Clone()}
@@ -57,7 +65,7 @@ func draw(t *rapid.T) Case {
 		st = trial
 	}
 	dt, pt := gen.Texts(t, doc, ref.OpsTree(ops), false, "sp")
-	return Case{Doc: dt, Patch: pt, Neg: neg}
+	return Case{Doc: dt, Patch: pt, Neg: neg, NoEsc: gen.OneIn(t, 4, "noesc"), Ensure: ensure}
 }
 
 func errClass(err error) string {
@@ -84,8 +92,15 @@ func check(c Case) ev.Verdict {
 	if why != "" {
 		return ev.Excluded(why)
 	}
-	on := lib.Options{Neg: c.Neg, Esc: true, AllowMissing: true}
-	off := lib.Options{Neg: c.Neg, Esc: true}
+	on := lib.Options{Neg: c.Neg, Esc: !c.NoEsc, Ensure: c.Ensure, AllowMissing: true}
+	off := lib.Options{Neg: c.Neg, Esc: !c.NoEsc, Ensure: c.Ensure}
+	if c.Ensure {
+		for _, op := range ops {
+			if lib.BigIndex(op.Path) {
+				return ev.Excluded("array index above 10^4 under EnsurePathExistsOnAdd (quadratic padding; outside C04's stated domain)")
+			}
+		}
+	}
 	want := ref.Apply(doc, ops, on.Ref())
 	gotOn := lib.Apply(c.Doc, c.Patch, on)
 	if want.OutOfDomain() {
@@ -116,7 +131,7 @@ func check(c Case) ev.Verdict {
 	if gotOn.DecodeErr != nil || gotOff.DecodeErr != nil {
 		return ev.Fail("DecodePatch rejected a valid patch: %v / %v", gotOn.DecodeErr, gotOff.DecodeErr)
 	}
-	v := ev.Verdict{Classes: []string{fmt.Sprintf("skipped=%d", min(len(want.Skipped), 4)), fmt.Sprintf("ok=%v", want.OK())}}
+	v := ev.Verdict{Classes: []string{fmt.Sprintf("skipped=%d", min(len(want.Skipped), 4)), fmt.Sprintf("ok=%v", want.OK()), fmt.Sprintf("ensure=%v/noesc=%v", c.Ensure, c.NoEsc)}}
 	// non-trivial: a skipped remove followed by a successful operation, or a non-remove failure after a skipped remove
 	if len(want.Skipped) > 0 {
 		first := want.Skipped[0]
@@ -162,7 +177,7 @@ func check(c Case) ev.Verdict {
 
 var unit = ev.Unit[Case]{
 	Name: "allow-missing",
-	Rule: "document x sequence of 1-7 operations, about half of them removes whose target is existing / absent member / out-of-range index (both signs) / below an absent, scalar or null ancestor, the rest drawn from all six kinds x SupportNegativeIndices; oracle: (option on, P) must equal (option off, P minus the removes the model marks skipped) in outcome, error class and ordered document, and equal the model's document; non-trivial = a skipped remove followed by an operation that succeeds, or a non-remove failure after a skipped remove",
+	Rule: "document x sequence of 1-7 operations, about half of them removes whose target is existing / absent member / out-of-range index (both signs) / below an absent, scalar or null ancestor, the rest drawn from all six kinds x SupportNegativeIndices x (carried by both sides alike) EscapeHTML off in 1 case of 4 and EnsurePathExistsOnAdd in 1 of 5 with adds below members that do not exist yet; oracle: (option on, P) must equal (option off, P minus the removes the model marks skipped) in outcome, error class and ordered document, and equal the model's document; non-trivial = a skipped remove followed by an operation that succeeds, or a non-remove failure after a skipped remove",
 	Draw: draw, Check: check,
 }
 
